@@ -1,31 +1,35 @@
 import Percival.Driver.Loop
-import Percival.Model.DH
+import Percival.Model.DHStep
 /-! `pmodel dhmon`: monitor for C10 under OpenSSL allocation failure: a call may fail (documented -1) but if it
-    succeeds its value must be the specified one — also in later calls of the same process. -/
+    succeeds its value must be the specified one — also in later calls of the same process.  Thin by construction:
+    `parseOp`, `parseAns`, `Model.DHStep.monStep`. -/
 namespace Percival.Driver.Dhmon
-open Percival Percival.Driver Percival.Model.DH
-open Percival.Spec.DH (ofBE)
+open Percival Percival.Driver Percival.Model.DHStep
 
-def specPow (a : Nat) (priv : List UInt8) : String :=
-  hexOfBytes (toBE 256 (powMod a (Spec.DH.offset + ofBE priv) Spec.DH.p))
-
-def want (op : List String) : Option String :=
-  match op with
-  | ["pubf", _, priv, _] | ["pub", priv, _] => (bytesOfHex priv).map (specPow 2)
-  | ["computef", _, pub, priv, _] | ["compute", pub, priv, _] => do
-      let y ← bytesOfHex pub; let p ← bytesOfHex priv
-      pure (specPow (ofBE y) p)
+def parseOp : List String → Option MOp
+  | ["pubf", _, priv, _] | ["pub", priv, _] => (bytesOfHex priv).map .pub
+  | ["computef", _, pub, priv, _] | ["compute", pub, priv, _] => do pure (.compute (← bytesOfHex pub) (← bytesOfHex priv))
   | _ => none
 
+def parseAns : List String → MAns
+  | ["fail"] => .fail
+  | ["ok", v] => match bytesOfHex v with | some b => .ok b | none => .other
+  | _ => .other
+
 def mon (_ : Unit) (op ans : List String) : Unit × String :=
-  match want op, ans with
-  | some _, ["fail"] => ((), "ok")
-  | some w, ["ok", v] => ((), if v = w then "ok" else "bad a call that reported success returned a value other than a^(2^258+x) mod p")
-  | _, _ => ((), "bad unexpected answer")
+  match parseOp op with
+  | none => ((), "bad unexpected answer")
+  | some o =>
+    match parseAns ans with
+    | .other => ((), if (match ans with | ["ok", _] => true | _ => false)
+                     then "bad a call that reported success returned a value other than a^(2^258+x) mod p"
+                     else "bad unexpected answer")
+    | a => ((), if monStep o a then "ok"
+                else "bad a call that reported success returned a value other than a^(2^258+x) mod p")
 
 def model (_ : Unit) (toks : List String) : Unit × String :=
-  match want toks with
-  | some w => ((), s!"ok {w}")
+  match parseOp toks with
+  | some o => ((), s!"ok {hexOfBytes (want o)}")
   | none => ((), "bad-op")
 
 def main (args : List String) : IO UInt32 :=
